@@ -3,10 +3,10 @@ CONSTANTS
   Repaired = TRUE
   NColsSet = {1, 2}
   NRowsSet = {1, 2}
-  HdrSet = {TRUE, FALSE}
+  HdrSet = {TRUE}
   StyleSet = {"ascii", "solid", "borderless", "compact"}
   AvailSet <- AFew
-  IndSet = {0, 3}
+  IndSet = {2}
   AlignMode = 1
   Pool <- PoolTiny
 INVARIANT TypeOK
